@@ -16,6 +16,7 @@ import (
 	"math/rand"
 	"sort"
 	"strings"
+	"sync"
 	"time"
 
 	"verifharness/core"
@@ -29,6 +30,31 @@ type c13Args struct {
 	Seed   int64    `json:"seed,omitempty"`
 	Budget int      `json:"budget"`
 	Script []string `json:"script,omitempty"`
+	// Expect: a behaviour the (scripted) runs must show — used by corpus witnesses of Neg/ theorems, so that a witness
+	// that silently stops being reproduced on the real code is a disagreement
+	Expect string `json:"expect,omitempty"`
+}
+
+// c13StartAfterErrorExit: does the trace enter a visitor after a worker whose visitor failed has exited (i.e. after the
+// errgroup has recorded the error and cancelled the context)?
+func c13StartAfterErrorExit(ev []string) bool {
+	failed := map[string]bool{}
+	exited := false
+	for _, e := range ev {
+		f := strings.Split(e, "|")
+		if len(f) < 6 || f[0] != "W" {
+			continue
+		}
+		switch {
+		case f[1] == "visit" && f[5] == "err":
+			failed[f[2]] = true
+		case f[1] == "W.exit" && failed[f[2]]:
+			exited = true
+		case f[1] == "W.begin" && f[3] == "visit" && exited:
+			return true
+		}
+	}
+	return false
 }
 
 type c13Out struct {
@@ -364,9 +390,25 @@ func init() {
 				Traces int               `json:"traces"`
 				NBad   int               `json:"nbad"`
 				Bad    []json.RawMessage `json:"bad"`
+				Labels [][]any           `json:"labels"`
 			}
 			if err := json.Unmarshal(drv, &d); err != nil || d.Traces != len(o.Runs) {
 				return core.Disagree("malformed replay answer: " + string(drv))
+			}
+			c13LabelAdd(d.Labels)
+			if d.NBad == 0 {
+				var a c13Args
+				json.Unmarshal(args, &a)
+				if a.Expect == "start-after-error-exit" {
+					for _, r := range o.Runs {
+						if !c13StartAfterErrorExit(r.Ev) {
+							return core.Disagree("witness not reproduced: no visitor was entered after a failed worker's exit (Neg/C13.lean error_stops_new_visits_false)")
+						}
+					}
+					if c13Ctx != nil {
+						c13Ctx.Count("witness:start-after-error-exit")
+					}
+				}
 			}
 			if d.NBad > 0 {
 				return core.Disagree(fmt.Sprintf("%d of %d real traces are not traces of Trav.step?: %s", d.NBad, d.Traces, d.Bad[0]))
@@ -445,6 +487,19 @@ func c13Subsets(n, maxSize int) [][]int {
 	return res
 }
 
+// shapes with a dependency shared by several dependents (edge [a,b]: a depends on b)
+var c13SharedShapes = []struct {
+	name  string
+	n     int
+	edges [][2]int
+}{
+	{"diamond", 4, [][2]int{{1, 0}, {2, 0}, {3, 1}, {3, 2}}},
+	{"root-with-dependency-and-3-dependents", 5, [][2]int{{1, 0}, {2, 1}, {3, 1}, {4, 1}}},
+	{"shared-before-root-branch", 4, [][2]int{{3, 0}, {3, 2}, {2, 0}, {2, 1}}},
+	{"diamond-over-chain", 5, [][2]int{{1, 0}, {2, 1}, {3, 1}, {4, 2}, {4, 3}}},
+	{"two-roots-fan", 5, [][2]int{{2, 0}, {2, 1}, {3, 0}, {3, 1}, {4, 2}, {4, 3}}},
+}
+
 var c13Ctx *core.Ctx
 
 func runC13(ctx *core.Ctx) {
@@ -516,6 +571,26 @@ func runC13(ctx *core.Ctx) {
 					both(c13Args{c13Graph: g, Mode: "pct", Seed: ctx.Rng.Int63n(1 << 30), Budget: 4})
 					ctx.Count("roots")
 				}
+			}
+		}
+	}
+	// 1d. root selections on shared-dependency shapes (4–5 services; skip() runs vertex.descendents in the worker
+	//     goroutines): diamonds, a root that has a dependency of its own and several dependents that become ready
+	//     together, a shared dependency that sorts before the branch leading to the root — every single root, both
+	//     directions, unbounded and limit 2, completion orders + PCT + random schedules
+	for _, sh := range c13SharedShapes {
+		for _, rev := range dirs {
+			for r := 0; r < sh.n; r++ {
+				for _, lim := range []int{0, 2} {
+					g := c13Graph{N: sh.n, Edges: sh.edges, Reverse: rev, Limit: lim, Roots: []int{r}}
+					both(c13Args{c13Graph: g, Mode: "completion", Policy: "random", Seed: ctx.Rng.Int63n(1 << 30), Budget: ctx.Pick(3, 24)})
+					both(c13Args{c13Graph: g, Mode: "pct", Seed: ctx.Rng.Int63n(1 << 30), Budget: ctx.Pick(2, 8)})
+					ctx.Count("roots-shared-" + sh.name)
+				}
+				// the same selection free-running (no yield control, jittering visitors): the dependents of the root really
+				// run skip() / vertex.descendents at the same time
+				ctx.Add("trav.free", c13Args{c13Graph: c13Graph{N: sh.n, Edges: sh.edges, Reverse: rev, Roots: []int{r}}, Mode: "free", Seed: ctx.Rng.Int63n(1 << 30), Budget: ctx.Pick(10, 40)})
+				ctx.Count("free-running-roots-shared")
 			}
 		}
 	}
@@ -655,4 +730,64 @@ func runC13(ctx *core.Ctx) {
 	}
 	// 5. the glue around walk (CollectInDependencyOrder): plan correspondence + oracle on general projects with options
 	c13PlanCases(ctx)
+	// 6. label coverage of the tie: every rule of Trav.step?, and every branch of the rules that have two, must have been
+	//    taken by some real schedule that the model accepted; a branch never reached is a hole in the tie (soft: counted)
+	ctx.Wait()
+	c13LabelReport(ctx)
+}
+
+// ---------------------------------------------------------------- label coverage (filled by the trav.sched judge)
+
+// the rules / branches of Trav.step? as Ops/C13.lean branchOf names them.  Not listed, because unreachable: the caller
+// only tries vertices without prerequisite, which the coordinator never tries — `ready.M:not-ready`, `enter.M:lost`.
+var c13LtsBranches = []string{
+	"schedNext.M", "schedNext.C", "schedEnd.M", "schedEnd.C",
+	"ready.M:ready", "ready.C:ready", "ready.C:not-ready",
+	"enter.M:claimed", "enter.C:claimed", "enter.C:lost",
+	"spawn.M", "spawn.C",
+	"wBegin:visit", "wBegin:skipped", "wReturn:ok", "wReturn:err", "wDone", "wSend",
+	"wExit:ok", "wExit:first-error", "wExit:later-error",
+	"cRecv:continue", "cRecv:last", "cCtxDone", "extCancel",
+}
+
+var (
+	c13LabelMu     sync.Mutex
+	c13LabelCounts = map[string]int{}
+)
+
+func c13LabelAdd(rows [][]any) {
+	c13LabelMu.Lock()
+	defer c13LabelMu.Unlock()
+	for _, r := range rows {
+		if len(r) != 2 {
+			continue
+		}
+		k, _ := r[0].(string)
+		n, _ := r[1].(float64)
+		c13LabelCounts[k] += int(n)
+	}
+}
+
+func c13LabelReport(ctx *core.Ctx) {
+	c13LabelMu.Lock()
+	defer c13LabelMu.Unlock()
+	known := map[string]bool{}
+	for _, b := range c13LtsBranches {
+		known[b] = true
+		n := c13LabelCounts[b]
+		if n == 0 {
+			ctx.Count("lts-label-never-reached:" + b)
+			ctx.Note("label coverage: no accepted real schedule took %s", b)
+			continue
+		}
+		// the histogram is printed in steps (Count adds one at a time): thousands of steps per branch
+		for i := 0; i < (n+999)/1000; i++ {
+			ctx.Count("lts-label-ksteps:" + b)
+		}
+	}
+	for k, n := range c13LabelCounts {
+		if !known[k] && n > 0 {
+			ctx.Count("lts-label-unexpected:" + k) // a branch the model documentation calls unreachable was taken
+		}
+	}
 }
